@@ -12,6 +12,7 @@ import (
 	"math/big"
 	"math/rand"
 	"strings"
+	"sync"
 
 	"github.com/icon-project/goloop/common"
 	"github.com/icon-project/goloop/common/codec"
@@ -248,6 +249,43 @@ func runList(in listIn, forCoq bool) (obs listObs, oracle string) {
 			if !reload {
 				obs.gets = append(obs.gets, [2]int{i, p})
 			}
+		}
+	}
+	// the lists are shared between goroutines in goloop: concurrent lookups on ONE list object
+	// (8 goroutines; a short extra oracle outside the property's quantifier over inputs)
+	if n >= 16 && n <= 1000 {
+		var wg sync.WaitGroup
+		var mu sync.Mutex
+		bad := ""
+		for g := 0; g < 8; g++ {
+			wg.Add(1)
+			gr := rand.New(rand.NewSource(in.Seed + int64(g)))
+			go func() {
+				defer wg.Done()
+				defer func() {
+					if p := recover(); p != nil {
+						mu.Lock()
+						bad = fmt.Sprintf("panic %v", p)
+						mu.Unlock()
+					}
+				}()
+				for it := 0; it < 4000; it++ {
+					i := gr.Intn(n)
+					b, err := get(it%2 == 0, i)
+					if err != nil || !bytes.Equal(b, obs.items[i]) {
+						mu.Lock()
+						if bad == "" {
+							bad = fmt.Sprintf("Get(%d) err=%v returns another item", i, err)
+						}
+						mu.Unlock()
+						return
+					}
+				}
+			}()
+		}
+		wg.Wait()
+		if bad != "" {
+			fail("%s: concurrent lookups by 8 goroutines on one list: %s", what, bad)
 		}
 	}
 	for _, i := range []int{n, n + 1, n + 128} {
